@@ -351,6 +351,43 @@ class CombineLatestAddUpstream(IndexedInputs, TopoBase):
                        text='self.emit_on is self.upstreams')]
 
 
+class CombineLatestAddUpstreamFresh(CombineLatestAddUpstream):
+    """the node as the constructor leaves it: without an explicit emit_on, `emit_on` is the tuple of the initial inputs, an object
+    of its own (only after the first topology edit it is the `upstreams` list itself)"""
+    name = 'combine_latest._add_upstream[first edit after construction]'
+
+    def build(self, I):
+        selfv, args, kw = CombineLatestAddUpstream.build(self, I)
+        cell = I.st.heap[selfv.loc]
+        U, who, idx = self._io
+        I.st.heap[selfv.loc] = cell.with_field('emit_on', VSeq(U, K_STREAM))
+        self.finish(I, dict(self.pre_args))
+        return selfv, args, kw
+
+    def clauses(self):
+        return [c for c in CombineLatestAddUpstream.clauses(self) if 'emit_on_follows' not in c.name] + [
+            Clause('C15.emit_on_follows_upstreams_when_not_given', ['C15', 'C01'], when='return',
+                   text='list(self.emit_on) == list(self.upstreams)',
+                   note='a node built without emit_on emits on every input, also on one connected later')]
+
+
+class CombineLatestRemoveUpstreamFresh(CombineLatestRemoveUpstream):
+    name = 'combine_latest._remove_upstream[first edit after construction]'
+
+    def build(self, I):
+        selfv, args, kw = CombineLatestRemoveUpstream.build(self, I)
+        cell = I.st.heap[selfv.loc]
+        U = I.st.list_cell(cell.fields['upstreams'].loc).term
+        I.st.heap[selfv.loc] = cell.with_field('emit_on', VSeq(U, K_STREAM))
+        self.finish(I, dict(self.pre_args))
+        return selfv, args, kw
+
+    def clauses(self):
+        return CombineLatestRemoveUpstream.clauses(self) + [
+            Clause('C15.emit_on_follows_upstreams_when_not_given', ['C15', 'C01'], when='return',
+                   text='list(self.emit_on) == list(self.upstreams)')]
+
+
 PairArr = z3.ArraySort(sym.Obj, sym.SeqElemS)
 
 
@@ -493,7 +530,7 @@ class ZipAddUpstream(TopoBase):
                             'and list(self.upstreams) == old(list(self.upstreams)) + [upstream]')]
 
 
-ALL += [CombineLatestRemoveUpstream, CombineLatestAddUpstream, CombineLatestAddUpstreamEmitOnGiven,
+ALL += [CombineLatestAddUpstreamFresh, CombineLatestRemoveUpstreamFresh, CombineLatestRemoveUpstream, CombineLatestAddUpstream, CombineLatestAddUpstreamEmitOnGiven,
         CombineLatestRemoveUpstreamEmitOnGiven, ZipRemoveUpstream, ZipAddUpstream]
 
 
